@@ -54,6 +54,9 @@ def run_suite(ctx, name, worlds, env=None, known=None, use_model=True, chunk=400
             for f in w.flags:
                 ctx.stats['dist']['flag:' + f] = ctx.stats['dist'].get('flag:' + f, 0) + 1
         seen_worlds = set()
+        # failures of a property oracle on the implementation carry a failing input: report them first
+        # (the number of reports per run is capped)
+        problems.sort(key=lambda p: {'crash': 0, 'expect': 1}.get(p['kind'], 2))
         for p in problems:
             if p['kind'] == 'crash':
                 path = core.write_replay(ctx, 'suite %s could not run' % name, [], p['detail'], env)
@@ -167,6 +170,24 @@ def gen_history(g, allow=(), max_tests=4, max_calls=8, kinds=None, ncfg=None):
                     h.flags |= Gen.body_flags(v, ids)
         if b'%' in n and any(c.kind in ('sasnap', 'sajson') for _, c in calls):
             h.flags.add('pct')
+    # a value quoting the header of ITS OWN slot (a log line naming the running test and call): the
+    # lookup of a slot stops at the first header line, which is the real one, so this is harmless -
+    # unlike a line equal to ANOTHER slot's header (flag `shadow`, known finding D9)
+    if 'noself' not in allow:
+        for n, calls in h.execs:
+            k = {}
+            for cfgno, c in calls:
+                if c.kind in ('snap', 'json', 'yaml'):
+                    k[cfgno] = k.get(cfgno, 0) + 1
+                if c.kind == 'snap' and r.random() < 0.07:
+                    own = b'[' + n + b' - ' + str(k[cfgno]).encode() + b']'
+                    vals = list(c.payload) if isinstance(c.payload, (list, tuple)) else [c.payload]
+                    i = r.randrange(len(vals))
+                    ls = vals[i].split(b'\n')
+                    ls.insert(r.randint(0, len(ls)), own)
+                    vals[i] = b'\n'.join(ls)
+                    c.payload = vals
+                    h.flags.add('selfshadow')
     return h
 
 
@@ -230,8 +251,16 @@ def mutate_text(g, b):
     """a text different from b, by one small edit; returns (new, tag)"""
     r = g.r
     for _ in range(20):
-        k = r.randrange(10)
+        k = r.randrange(12)
         ls = b.split(b'\n')
+        if k in (10, 11):
+            # cut the text right after (or before) a terminator / escape-token line: what a reader that
+            # stops at a badly escaped terminator would take for the whole value
+            cand = [i for i, l in enumerate(ls[:-1]) if l in (b'---', b'/-/-/-/')]
+            if not cand:
+                continue
+            i = r.choice(cand)
+            return b'\n'.join(ls[:i + 1] if k == 10 else ls[:i]), 'truncate-at-token-line'
         if k == 9:
             cand = [i for i, l in enumerate(ls) if l.strip(b' ') == b'---']
             if not cand:
@@ -285,6 +314,12 @@ def mutate_call(g, c):
     if c.kind in ('snap', 'sasnap'):
         if isinstance(c.payload, (list, tuple)):
             vals = list(c.payload)
+            if c.kind == 'snap' and g.r.random() < 0.3:
+                # the formatted text is the values joined by newlines: an empty first value is a
+                # leading newline, not nothing
+                if vals[0] == b'' and len(vals) > 1:
+                    return Call(c.kind, vals[1:]), 'drop-empty-first-value'
+                return Call(c.kind, [b''] + vals), 'add-empty-first-value'
             i = g.r.randrange(len(vals))
             vals[i], tag = mutate_text(g, vals[i])
             return Call(c.kind, vals), tag
